@@ -237,7 +237,16 @@ func (g *gen) genStatement(typ types.Type, this, that string) error {
 			p.Out()
 			p.P("}")
 		}
-		if err := g.genField(elmType, thisvalue, wrap(that)+"["+thatkey+"]"); err != nil {
+		if _, isArray := elmType.Underlying().(*types.Array); isArray && !canCopy(elmType) {
+			// The elements of an array that is stored in a map cannot be assigned to,
+			// so the array is copied into a variable, which is then stored in the map.
+			thatvalue := prepend(that, "value")
+			p.P("var %s %s", thatvalue, g.TypeString(elmType))
+			if err := g.genField(elmType, thisvalue, thatvalue); err != nil {
+				return err
+			}
+			p.P("%s = %s", wrap(that)+"["+thatkey+"]", thatvalue)
+		} else if err := g.genField(elmType, thisvalue, wrap(that)+"["+thatkey+"]"); err != nil {
 			return err
 		}
 		p.Out()
